@@ -48,3 +48,75 @@ package native
 //@   -- exactly one leaf is appended, the leaf hash of the given bytes; earlier leaves are kept
 //@   ensures len(this.crossHashes) == old(len(this.crossHashes)) + 1 && this.crossHashes[old(len(this.crossHashes))] == hashLeaf(old(bytes(data)))
 //@   ensures forall i int :: 0 <= i && i < old(len(this.crossHashes)) ==> this.crossHashes[i] == old(this.crossHashes[i])
+
+// ---- transaction execution bookkeeping (C15) -----------------------------------------------------------
+//@ func (*NativeService).GetNotify
+//@   inline
+//@ func (*NativeService).GetCrossHashes
+//@   inline
+
+//@ func NewNativeService
+//@   property C15
+//@   requires tx != nil
+//@   ensures r1 == nil ==> r0 != nil && r0.cacheDB == cacheDB && r0.tx == tx && r0.height == height && len(r0.notifications) == 0 && len(r0.crossHashes) == 0 && len(r0.contexts) == 0
+//@   ensures r1 != nil ==> r0 == nil
+//@   fresh r0
+
+//@ func (*NativeService).PushContext
+//@   property C15
+//@   requires this != nil
+//@   modifies this.contexts, elems(this.contexts)
+//@   ensures len(old(this.contexts)) <= MAX_CONTEXT_LEN ==> result == nil
+//@   ensures result == nil ==> len(this.contexts) == old(len(this.contexts)) + 1
+
+//@ func (*NativeService).PopContext
+//@   property C15
+//@   requires this != nil
+//@   modifies this.contexts
+//@   ensures len(this.contexts) <= old(len(this.contexts))
+
+// a successful call keeps everything: the events and cross-chain leaves it produced are appended to the
+// ones the service already held, none is lost; a failed call is reported as an error
+//@ func (*NativeService).Invoke
+//@   property C15
+//@   mode abstract
+//@   requires this != nil && len(this.contexts) <= MAX_CONTEXT_LEN
+//@   -- assumed frame (abstract mode, not proved): the handler a call dispatches to gets nothing but the service, so
+//@   -- it writes contract storage through the service's cache and the service's own bookkeeping fields only; in
+//@   -- particular no handler commits or resets the cache (CacheDB.Commit has one caller, HandleInvokeTransaction;
+//@   -- tools/syntactic_facts.sh re-checks that on every run)
+//@   modifies Store, this.input, this.notifications, this.crossHashes, this.contexts
+//@   ghost var n0 []*event.NotifyEventInfo
+//@   ghost var nin []*event.NotifyEventInfo
+//@   ghost var h0 []common.Uint256
+//@   ghost var hin []common.Uint256
+//@   ghost var ninA ArrU64U64
+//@   ghost var ninOff uint64 = 0
+//@   ghost var h0A ArrU64B256
+//@   ghost var h0Off uint64 = 0
+//@   ghost var ran bool = false
+//@   ghost var failed bool = false
+//@   -- assumed: a contract's registration function (a function value from the Contracts table) only calls
+//@   -- Register; it leaves the context stack, the collected events and leaves, and the input alone
+//@   assume after "services(this)" : len(this.contexts) == old(len(this.contexts)) && this.notifications == old(this.notifications) && this.crossHashes == old(this.crossHashes)
+//@   set after "notifications := this.notifications" : n0 := notifications
+//@   set after "hashes := this.crossHashes" : h0 := hashes
+//@   set after "result, err := service(this)" : nin := this.notifications
+//@   set after "result, err := service(this)" : hin := this.crossHashes
+//@   set after "result, err := service(this)" : ninA := arr(this.notifications)
+//@   set after "result, err := service(this)" : ninOff := off(this.notifications)
+//@   set after "result, err := service(this)" : h0A := arr(hashes)
+//@   set after "result, err := service(this)" : h0Off := off(hashes)
+//@   set after "result, err := service(this)" : ran := true
+//@   set after "result, err := service(this)" : failed := err != nil
+//@   -- the handler's failure is the call's failure
+//@   ensures[c15-failure-reported] ran && failed ==> r1 != nil
+//@   ensures[c15-success-ran] r1 == nil ==> ran && !failed
+//@   -- events: earlier ones first, then the ones of this call, nothing dropped
+//@   ensures[c15-events-kept] r1 == nil ==> len(this.notifications) == len(n0) + len(nin)
+//@   ensures[c15-events-kept-old] r1 == nil ==> forall i int :: 0 <= i && i < len(n0) ==> this.notifications[i] == n0[i]
+//@   ensures[c15-events-kept-new] r1 == nil ==> forall i int :: 0 <= i && i < len(nin) ==> ref(this.notifications[len(n0)+i]) == sel(ninA, ninOff + uint64(i))   -- contents as they were when the handler returned
+//@   -- cross-chain leaves: the ones of this call, then the earlier ones, nothing dropped
+//@   ensures[c15-leaves-kept] r1 == nil ==> len(this.crossHashes) == len(hin) + len(h0)
+//@   ensures[c15-leaves-kept-new] r1 == nil ==> forall i int :: 0 <= i && i < len(hin) ==> this.crossHashes[i] == hin[i]
+//@   ensures[c15-leaves-kept-old] r1 == nil ==> forall i int :: 0 <= i && i < len(h0) ==> this.crossHashes[len(hin)+i] == sel(h0A, h0Off + uint64(i))
